@@ -10,6 +10,7 @@ from .. import universal as U
 from ..storejudge import apply_index, init_arguments
 
 ID = 'C10'
+TECHNIQUE = "runtime monitoring: conversion events by every route judged against exact quantization of the source's PRE snapshot; routes compared with each other; source frame monitor"
 TITLE = 'conversions agree by every route'
 RULE = ('conversion events: resize(sizes), resize(dtype=), Fxp(src, like=dst), Fxp(src, sizes), src.like(dst), dst(src), dst.set_val(src), '
         'dst.equal(src), dst[i]=src, dst.equal(src, index=i). The destination codes must equal refmodel.quantize(exact source value; '
